@@ -17,6 +17,12 @@ pub fn install() {
             } else {
                 "<non-string panic payload>".to_string()
             };
+            let injected = info.payload().downcast_ref::<crate::track::fault::Injected>().is_some();
+            let raw_loc = info.location().map(|l| l.file().to_string()).unwrap_or_default();
+            if !injected && !raw_loc.starts_with("/repo/") && !raw_loc.starts_with("/rustc/") && !raw_loc.contains(".cargo/registry") {
+                // not the crate under test: a bug in the harness itself must never be silent
+                eprintln!("HARNESS PANIC: {} @ {}:{}", msg, raw_loc, info.location().map(|l| l.line()).unwrap_or(0));
+            }
             let loc = info.location().map(|l| format!("{}:{}", l.file().trim_start_matches("/repo/"), l.line())).unwrap_or_default();
             LAST.with(|l| *l.borrow_mut() = format!("{} @ {}", msg, loc));
         })
